@@ -425,7 +425,8 @@ func (c *Ctx) rulesC13grace() {
 	if hl == nil {
 		return
 	}
-	isDispose := func(ins ssa.Instruction) bool {
+	var isDisposeD func(ins ssa.Instruction, d int) bool
+	isDisposeD = func(ins ssa.Instruction, d int) bool {
 		ci, ok := ins.(ssa.CallInstruction)
 		if !ok {
 			return false
@@ -437,8 +438,15 @@ func (c *Ctx) rulesC13grace() {
 		if _, isGo := ins.(*ssa.Go); isGo && (c.callMatches(cc, pm+":Machine.Add1") || c.callMatches(cc, pm+":Machine.Add")) {
 			return true
 		}
+		// a private helper of the loop every path of which requests disposal
+		if _, isGo := ins.(*ssa.Go); !isGo && d < 2 {
+			if cal := cc.StaticCallee(); cal != nil && cal != hl && len(cal.Blocks) > 0 && c.hostedBy(cal, hl) {
+				return fnAlwaysPasses(cal, func(j ssa.Instruction) bool { return isDisposeD(j, d+1) }, nil)
+			}
+		}
 		return false
 	}
+	isDispose := func(ins ssa.Instruction) bool { return isDisposeD(ins, 0) }
 	n := 0
 	var visit func(f *ssa.Function)
 	visit = func(f *ssa.Function) {
